@@ -466,5 +466,10 @@ func (c *Variant) Equals(obj *Variant) bool {
 // Clone the variant value
 //	Returns: The cloned value of this variant
 func (c *Variant) Clone() *Variant {
-	return NewVariant(c)
+	result := NewVariant(c)
+	// The clone gets its own list of elements
+	if c.typ == Array {
+		result.SetAsArray(c.AsArray())
+	}
+	return result
 }
